@@ -34,7 +34,7 @@ PROGRAMS = [
     (2, True, "def {n}(a, b): return {c}(b, a) + a"),
     (1, True, "def {n}(a): return {c}(a, a) - a"),
 ]
-RULE = ("case = one history on ONE shared algebra (config d<=3 quick / d<=4 thorough, wrapper None or a pass-through JIT "
+RULE = ("case = one history on ONE shared algebra (config d<=3 quick / d<=4 thorough, plus d=7 (lazily filled sign table) with light operators, wrapper None or a pass-through JIT "
         "stand-in, cse on/off): an operand pool (sparse Fraction multivectors plus permuted and zero-padded copies of pool "
         "entries added by construction) and 2-40 steps drawn from {unary/binary operator on pool entries, number on either "
         "side, list operand, register one of 12 expression programs under a name from a two-name pool (numeric or "
@@ -68,12 +68,21 @@ def budget(tier):
 @st.composite
 def _cases(draw, tier):
     dmax = 3 if tier == "quick" else 4
-    cfg = draw(S.configs(1, dmax, custom=0.1, dweights=[1, 2, 2, 3, 3, 3] + [4] * (dmax >= 4)))
+    if draw(st.integers(0, 6)) == 0:
+        # the lazily filled sign table of d >= 7 is state of the algebra object too: light operators on small operands
+        cfg = draw(S.configs(7, 8 if tier == "thorough" else 7, starts=(None, 0, 1)))
+    else:
+        cfg = draw(S.configs(1, dmax, custom=0.1, dweights=[1, 2, 2, 3, 3, 3] + [4] * (dmax >= 4)))
     d = len(cfg["sig"])
     n = 2 ** d
+    big = d >= 6
     pool = []
     for _ in range(draw(st.integers(1, 4))):
-        o = draw(S.operand(d, classes=["single", "sparse", "sparse", "puregrade", "perm"], max_len=4 if d >= 4 else 5, zero_prob=0.05))
+        o = draw(S.operand(d, classes=["single", "sparse", "sparse", "puregrade", "perm"], max_len=3 if big else (4 if d >= 4 else 5), zero_prob=0.05))
+        if big:
+            # small generator indices so that blades of different operands share generators
+            o = {"keys": list(dict.fromkeys(k % 32 for k in o["keys"])), "vals": o["vals"]}
+            o["vals"] = o["vals"][:len(o["keys"])]
         pool.append({"keys": o["keys"], "vals": o["vals"]})
     for _ in range(draw(st.integers(1, 3))):
         src = draw(st.sampled_from(pool))
@@ -87,21 +96,22 @@ def _cases(draw, tier):
         pool.append({"keys": [ks[i] for i in p], "vals": [vs[i] for i in p]})
     idx = st.integers(0, len(pool) - 1)
     # a small operator alphabet per history, so that the same operator meets several storage orders of one blade set
-    bins = draw(st.lists(st.sampled_from(BIN), min_size=1, max_size=3, unique=True))
-    uns = draw(st.lists(st.sampled_from(UN), min_size=1, max_size=2, unique=True))
+    bins = draw(st.lists(st.sampled_from(BIN if not big else [b for b in BIN if b not in ("div", "sw", "proj")]), min_size=1, max_size=3, unique=True))
+    uns = draw(st.lists(st.sampled_from(UN if not big else [u for u in UN if u not in ("inv", "outerexp", "normsq")]), min_size=1, max_size=2, unique=True))
     steps = []
     nsteps = draw(st.integers(2, 40 if tier == "thorough" else 30))
     for _ in range(nsteps):
-        k = draw(st.sampled_from(["bin", "bin", "bin", "bin", "un", "un", "num", "list", "reg", "reg", "call", "call", "call", "symcall", "raise"]))
+        k = draw(st.sampled_from(["bin", "bin", "bin", "bin", "un", "un", "num", "list", "reg", "reg", "call", "call", "call", "symcall", "raise"]
+                                 if not big else ["bin", "bin", "bin", "bin", "un", "num", "list", "raise"]))
         if k == "bin":
             steps.append({"k": k, "op": draw(st.sampled_from(bins)), "i": draw(idx), "j": draw(idx)})
         elif k == "un":
             steps.append({"k": k, "op": draw(st.sampled_from(uns)), "i": draw(idx)})
         elif k == "num":
-            steps.append({"k": k, "op": draw(st.sampled_from(NUMOPS)), "i": draw(idx), "num": draw(S.fracs(nonzero=True)),
+            steps.append({"k": k, "op": draw(st.sampled_from(NUMOPS if not big else ["gp", "add", "sub", "op", "ip"])), "i": draw(idx), "num": draw(S.fracs(nonzero=True)),
                           "side": draw(st.sampled_from(["l", "r"]))})
         elif k == "list":
-            steps.append({"k": k, "op": draw(st.sampled_from(["gp", "op", "sw", "add"])), "i": draw(idx),
+            steps.append({"k": k, "op": draw(st.sampled_from(["gp", "op", "sw", "add"] if not big else ["gp", "op", "add"])), "i": draw(idx),
                           "js": draw(st.lists(idx, min_size=1, max_size=3)), "side": draw(st.sampled_from(["l", "r"]))})
         elif k == "reg":
             steps.append({"k": k, "p": draw(st.integers(0, len(PROGRAMS) - 1)), "name": draw(st.sampled_from(["f", "g"])),
@@ -111,7 +121,7 @@ def _cases(draw, tier):
         elif k == "symcall":
             steps.append({"k": k, "op": draw(st.sampled_from(["gp", "op", "ip", "add", "sw", "cp"])), "i": draw(idx), "j": draw(idx)})
         else:
-            steps.append({"k": k, "what": draw(st.sampled_from(["inv0", "otheralg", "badkind", "badgrade"])), "i": draw(idx),
+            steps.append({"k": k, "what": draw(st.sampled_from(["inv0", "otheralg", "badkind", "badgrade"] if not big else ["otheralg", "badkind", "badgrade"])), "i": draw(idx),
                           "op": draw(st.sampled_from(["gp", "add", "op"]))})
     case = {"cfg": cfg, "wrapper": draw(st.sampled_from([False, True, True])), "cse": draw(st.booleans()), "pool": pool, "steps": steps,
             "threads": None}
